@@ -15,6 +15,8 @@ NL = 8
 VARIANTS = {
     'sse': dict(dir='sse_t1', submit='mb_mgr_aes%d_cbc_enc_submit_x8_sse.asm', flush='mb_mgr_aes%d_cbc_enc_flush_x8_sse.asm', kern='aes%d_cbc_enc_x8_sse.asm',
                 sub_sym='submit_job_aes%d_enc_x8_sse', fl_sym='flush_job_aes%d_enc_x8_sse', k_sym='aes_cbc_enc_%d_x8_sse'),
+    'avx': dict(dir='avx2_t1', submit='mb_mgr_aes%d_cbc_enc_submit_avx.asm', flush='mb_mgr_aes%d_cbc_enc_flush_avx.asm', kern='aes%d_cbc_enc_x8_avx.asm',
+                sub_sym='submit_job_aes%d_cbc_enc_avx', fl_sym='flush_job_aes%d_cbc_enc_avx', k_sym='aes_cbc_enc_%d_x8'),
 }
 
 
@@ -151,7 +153,7 @@ def run_manager(ctx, variant, bits, op, free_lanes, maxblk=2, misalign=0, inplac
     def on_addr(s, ins, e, n, is_store):
         access_log.append((e, n, is_store, ins.addr if ins else 0))
     E.on_addr = on_addr
-    name = '%s_job_aes%d_enc_x8_%s free=%s maxblk=%d%s%s' % (op, bits, variant, ''.join(map(str, free)), maxblk, ' misaligned' if misalign else '', ' in-place' if inplace else '')
+    name = '%s_job_aes%d_cbc_enc_x8_%s free=%s maxblk=%d%s%s' % (op, bits, variant, ''.join(map(str, free)), maxblk, ' misaligned' if misalign else '', ' in-place' if inplace else '')
     try:
         fin = E.run(st, (v['sub_sym'] if op == 'submit' else v['fl_sym']) % bits)
     except (Unsupported, BoundExceeded) as e:
@@ -375,6 +377,8 @@ def run_family(ctx, facets, prop):
     for bits in (128, 192, 256):
         for op, free in configs(quick):
             tasks.append(('sse', bits, op, free, maxblk, 0, False, facets))
+        for op, free in (configs(True) if quick else configs(False)):
+            tasks.append(('avx', bits, op, free, maxblk, 0, False, facets))       # AVX (VEX-encoded) variant of the same managers/kernels
         tasks.append(('sse', bits, 'submit', (3,), maxblk, 1, False, facets))      # misaligned buffers
         tasks.append(('sse', bits, 'submit', (3,), maxblk, 0, True, facets))       # in-place
         tasks.append(('sse', bits, 'flush', (2, 6), maxblk, 0, True, facets))
